@@ -45,7 +45,7 @@ func newHist(res *result) *hist {
 		}
 	}
 	for i, e := range h.ev {
-		if e.Kind == lab.EvNote && (strings.HasPrefix(e.Info, "import-txn-") || strings.HasPrefix(e.Info, "life.")) {
+		if e.Kind == lab.EvNote && (strings.HasPrefix(e.Info, "import-txn-") || strings.HasPrefix(e.Info, "life.") || strings.HasPrefix(e.Info, "stop-flush-fault")) {
 			h.notes[e.Comp] = append(h.notes[e.Comp], note{i, e.Info})
 		}
 		if e.Kind == lab.EvCtlCall && e.Comp == "start" {
@@ -439,8 +439,15 @@ func (h *hist) checkUntouched(add addFn, c *call, P *post, key string, windowEve
 }
 
 // drainedAt checks clause (3) at log index T: the old run has completely ended and its positions are durable.
-func (h *hist) drainedAt(add addFn, c *call, T int) {
+func (h *hist) drainedAt(add0 addFn, c *call, T int) {
 	eng, kind := h.eng, kindLabel(c.Kinds)
+	add := add0
+	if h.stopFlushFired(c) {
+		// one root cause (NOTES.md, D3): the flush failure is swallowed by the stop
+		add = func(_ string, detail string, idx int) {
+			add0(strings.TrimPrefix(keyFlushSwallowed(eng), "C16/"), detail, idx)
+		}
+	}
 	if un := h.unpaired(T); len(un) > 0 {
 		add("import-before-drained/plugin-not-torn-down/"+eng+"/"+kind, fmt.Sprintf("%s started to import at #%d while plugins of the old run were still open: %v", c.Tag, T, un), T)
 	}
@@ -571,7 +578,11 @@ func (h *hist) checkSuccess(add addFn, c *call, P *post, overl bool, nApplied in
 					}
 					if e.Kind == lab.EvSrcOpen {
 						if want := h.storedAt(i, e.Comp); e.Pos != want {
-							add("restart-not-from-durable-position/"+eng, fmt.Sprintf("after %s source %s was reopened with %q but the store holds %q", c.Tag, e.Comp, e.Pos, want), i)
+							key := "restart-not-from-durable-position/" + eng
+							if h.stopFlushFired(c) {
+								key = strings.TrimPrefix(keyFlushSwallowed(eng), "C16/")
+							}
+							add(key, fmt.Sprintf("after %s source %s was reopened with %q but the store holds %q", c.Tag, e.Comp, e.Pos, want), i)
 						}
 					}
 				}
@@ -664,6 +675,17 @@ func (h *hist) planOnStoreAt(idx int, c *call) (string, error) {
 	}
 	diff, err := prov.Plan(context.Background(), d)
 	return diff.Hash, err
+}
+
+// keyFlushSwallowed names one root cause (NOTES.md, D3): a position flush that fails while
+// StopAndWait drains the pipeline is swallowed; StopAndWait returns nil and the apply goes on
+// although the handled records were never acked and their position is not in the store.
+func keyFlushSwallowed(eng string) string {
+	return "C16/import-before-drained/" + eng + "/failed-flush-during-stop-swallowed"
+}
+
+func (h *hist) stopFlushFired(c *call) bool {
+	return len(h.all(c.Tag, "stop-flush-fault fired")) > 0
 }
 
 // keySourceLeftOpen names one root cause (see NOTES.md, D1): the restart of the apply failed
